@@ -264,7 +264,8 @@ def classify(case, o):
 
 # ---- C: other uses of a snapshot that holds user-controlled parts: never compared, membership, sub-snapshots in loops
 def gen_usage(rng, i):
-    kind = ["never", "in", "getitem_loop", "never", "in_nested", "bound_nested", "bound_fstring", "getitem_star", "star_nested"][i % 9]
+    kind = ["never", "in", "getitem_loop", "never", "in_nested", "bound_nested", "bound_fstring", "getitem_star", "star_nested",
+            "in_star", "star_loop", "equal_other_spelling", "call_hidden_kw"][i % 13]
     g = G(rng, agree=True)
     flags = tuple(rng.choice(proggen.flag_subsets()))
     if kind == "never":
@@ -343,6 +344,51 @@ def gen_usage(rng, i):
         g.snips.append(frozen_txt)
         allowed = set()
         expect_fixed = shape.format(fz=frozen_txt, x=b)
+    elif kind == "in_star":
+        # a list holding a star-expression used with `in`: frozen as a whole (elements and nodes cannot be paired), whatever is tested
+        tested = rng.sample([1, 2, 3, 5, 77], rng.randint(1, 3))
+        lines = "".join(f"    R.append({t} in s)\n" for t in tested)
+        txt = rng.choice(["[*EXTRA, 3]", "[3, *EXTRA]", "[*EXTRA]"])
+        body = f"EXTRA = [1, 2]\nR = []\n\n\ndef test_a():\n    s = snapshot({txt})\n{lines}"
+        g.snips.append(txt)
+        allowed = set()
+    elif kind == "star_loop":
+        # a container holding a star-expression evaluated several times (loop, parametrised test): the values still agree, nothing raises
+        txt, val = rng.choice([("[*EXTRA, 7]", "[1, 2, 7]"), ("(*EXTRA, 7)", "(1, 2, 7)"), ("{**BASE, 'k': 7}", "{'z': 0, 'y': 1, 'k': 7}"), ("[0, [*EXTRA, 7]]", "[0, [1, 2, 7]]"),
+                               ("DC(a=[*EXTRA, 7])", "DC(a=[1, 2, 7])"), ("{'m': (*EXTRA,)}", "{'m': (1, 2)}")])
+        body = f"EXTRA = [1, 2]\nBASE = {{'z': 0, 'y': 1}}\n\n\ndef test_a():\n    for i in range({rng.randint(2, 3)}):\n        assert {val} == snapshot({txt})\n"
+        g.snips.append(txt)
+        allowed = set()
+    elif kind == "equal_other_spelling":
+        # the value is equal, but the hand-written display is not of the observed type (OrderedDict vs dict display, list subclass vs list display):
+        # only update could apply, and it must not touch the user-controlled part
+        a, b = rng.randint(0, 9), rng.randint(0, 9)
+        u = g.unmanaged(("int", a))
+        while u.startswith("snapshot(") or u.startswith("AnyValue"):
+            g.snips.pop()
+            u = g.unmanaged(("int", a))
+        # (an Is() handed to some function - dict(a=Is(x)), list((Is(x), 1)) - is NOT covered: the pinned suite demands that update replaces such an opaque
+        # expression as a whole: tests/adapter/test_change_types.py [F.make2(Is(5))-F(i=5)])
+        new, old = rng.choice([("OrderedDict(a={a}, b={b})", "{{'a': {u}, 'b': {b}}}"), ("LS([{a}, {b}])", "[{u}, {b}]"), ("LS([0, [{a}, {b}]])", "[0, [{u}, {b}]]"),
+                               ("{{'k': OrderedDict(a={a}, b={b})}}", "{{'k': {{'a': {u}, 'b': {b}}}}}")])
+        body = ("from collections import OrderedDict\n\n\nclass LS(list):\n    pass\n\n\n"
+                f"def test_a():\n    R = {new.format(a=a, b=b)} == snapshot({old.format(u=u, b=render_atom(b, False))})\n")
+        allowed = set()
+    elif kind == "call_hidden_kw":
+        # a user-controlled keyword argument of a field the adapter does not describe (repr=False) or that now holds the default (f-string): kept verbatim
+        which = rng.choice(["default_fstring", "default_is"])      # (fields with repr=False are outside the documented usage: the adapters cannot write them)
+        cls = "from dataclasses import field\n\n\n@dataclass\nclass HD:\n    a: int\n    b: str = ''\n    hidden: int = field(default=0, repr=False)\n\n\n"
+        a_old, a_new = rng.choice([(1, 2), (1, 1)])
+        if which == "hidden_is":
+            body = cls + f"SEC = 5\n\n\ndef test_a():\n    R = HD({a_new}, hidden=5) == snapshot(HD(a={a_old}, hidden=Is(SEC)))\n"
+            g.snips.append("Is(SEC)")
+        elif which == "default_fstring":
+            body = cls + f"EMPTY = ''\n\n\ndef test_a():\n    R = HD({a_new}) == snapshot(HD(a={a_old}, b=f'{{EMPTY}}'))\n"
+            g.snips.append("f'{EMPTY}'")
+        else:
+            body = cls + f"EMPTY = ''\n\n\ndef test_a():\n    R = HD({a_new}) == snapshot(HD(a={a_old}, b=Is(EMPTY)))\n"
+            g.snips.append("Is(EMPTY)")
+        allowed = set()
     elif kind == "getitem_star":
         # a dict display holding a star-expression, used with [key]
         base = rng.choice(["{}", "{'z': 0}"])
@@ -395,10 +441,11 @@ def judge_usage(case, o):
         return f"session phase raised {o['session_exc']}"
     if "error" in o:
         return f"rewritten file unusable: {o['error']}"
-    if case["usage"] == "getitem_loop":
+    if case["usage"] in ("getitem_loop", "star_loop"):
         bad = [t for t in o["tests"] if t[1] != "ok"]
         if bad:
-            return f"a sub-snapshot holding Is(i), evaluated in a loop, makes the test fail: {bad[0][1]}"
+            what = "a sub-snapshot holding Is(i)" if case["usage"] == "getitem_loop" else "a snapshot holding a star-expression whose value agrees"
+            return f"{what}, evaluated in a loop, makes the test fail: {bad[0][1]}"
     F = set(case["flags"])
     if case.get("expect_fixed") and "fix" in F:
         try:
@@ -519,7 +566,7 @@ def run(ctx: Ctx):
     ctx.coverage["oracle"]["cases"] = m
     ctx.sample({"test": cases[0]["source"].split("def test_a")[1], "unmanaged": cases[0]["snips"], "after_arg": outs[0].get("arg")})
     # C
-    mu = 240 if not ctx.thorough else 2400
+    mu = 312 if not ctx.thorough else 3120
     ucases = [gen_usage(ctx.rng, i) for i in range(mu)]
     uouts = pmap(run_usage, ucases, chunksize=8)
     for c, o in zip(ucases, uouts):
